@@ -215,8 +215,9 @@ PROPS["C15"] = {
     "spec_determined": True,
     "shards": {"quick": 8, "thorough": 16},
     "exhaustive": {"quick": [], "thorough": []},
-    "proved_scope": "",
-    "sampled_only_scope": "",
+    "proved_scope": "load_image: for every file and every table of harmless headers and good PT_LOADs on distinct pages the load succeeds and memory is "
+                    "exactly the segments' areas (bytes, zero tail, permissions), RIP = entry; symbols_resolve for any symbol table",
+    "sampled_only_scope": "the elf crate's parsing; PT_TLS handling; area names",
     "assumptions": ["the elf crate's parse result (entry, program headers, symbol table) is taken as given; the generator's ELF writer is the independent description of the file"],
 }
 PROPS["C16"] = {
@@ -228,8 +229,8 @@ PROPS["C16"] = {
     "spec_determined": True,
     "shards": {"quick": 8, "thorough": 16},
     "exhaustive": {"quick": [], "thorough": []},
-    "proved_scope": "",
-    "sampled_only_scope": "",
+    "proved_scope": "for any parse result: no crash, memory invariants after every header, at most 2^30 bytes allocated in total, termination",
+    "sampled_only_scope": "the elf crate's parser on malformed input (exercised under catch_unwind, watchdog and an address-space limit)",
     "assumptions": ["the elf crate's parser is exercised on every generated file, not modelled"],
 }
 
